@@ -266,6 +266,25 @@ func c12Run(c c12Case, r *hx.Rec) error {
 			if !reflect.DeepEqual(mb.Signed, want) || !reflect.DeepEqual(normSigs(mb.Signatures), normSigs(md.Sigs())) {
 				return fmt.Errorf("Metablock.Load yields different metadata than was written")
 			}
+			// the same file loaded into a Metablock value that held something else before (another
+			// document with more signatures, one of them with a certificate): nothing of it may survive
+			reused := &intoto.Metablock{Signed: intoto.Link{Type: "link", Name: "previous occupant"},
+				Signatures: []intoto.Signature{{KeyID: "aa", Sig: "bb", Certificate: "-----BEGIN CERTIFICATE-----\nprevious\n-----END CERTIFICATE-----"}, {KeyID: "cc", Sig: "dd", Certificate: "previous, too"}, {KeyID: "ee", Sig: "ff"}}}
+			var rerr error
+			func() {
+				defer func() {
+					if p := recover(); p != nil {
+						rerr = fmt.Errorf("panic: %v", p)
+					}
+				}()
+				rerr = reused.Load(path)
+			}()
+			if rerr != nil {
+				return fmt.Errorf("Metablock.Load into a re-used value fails on a file written by the library: %v", rerr)
+			}
+			if !reflect.DeepEqual(reused.Signed, want) || !reflect.DeepEqual(reused.Signatures, mb.Signatures) {
+				return fmt.Errorf("Metablock.Load into a re-used Metablock value yields other metadata than a fresh load:\n re-used %#v\n fresh   %#v", reused.Signatures, mb.Signatures)
+			}
 		}
 		// a second dump of the loaded object is byte-identical (nothing is lost or defaulted on the way)
 		p2 := filepath.Join(dir, "again.json")
